@@ -467,6 +467,17 @@ func runHashCase(ci interface{}, rec *pbt.Rec) *pbt.Failure {
 		chain = "ethereum"
 		e1, e2 = mk(a1, fee), mk(head, f2)
 		field = "TransferToChainEvent.boundary(Amount|Fee)"
+		switch c.Field % 3 {
+		case 1:
+			// same net amount: (amount, fee) versus (amount + d, fee + d) - what is locked and minted differs
+			d := big.NewInt(int64(200 + c.Seed))
+			e1, e2 = mk(head, fee), mk(new(big.Int).Add(head, d), new(big.Int).Add(fee, d))
+			field = "TransferToChainEvent.equal(Amount-Fee)"
+		case 2:
+			// amount and fee swapped (same absolute difference)
+			e1, e2 = mk(head, fee), mk(fee, head)
+			field = "TransferToChainEvent.swapped(Amount,Fee)"
+		}
 	} else {
 		fx := newFixture()
 		if typ == "batch" && fx.batch[chain] == nil {
